@@ -500,8 +500,9 @@ def run_job(spec):
         stubs.install(I)
         I.install_trampolines(productmd_modules())
         I.path_hooks.append(module_state_guard(productmd_modules()))
-        if job.get("budget_s"):
-            I.deadline = time.time() + job["budget_s"]
+        # wall-clock budget per job (a changed tree must not be able to make a check run for ever): exceeded => the job is
+        # reported as not exhausted (engine error, exit 2), never as success
+        I.deadline = time.time() + float(job.get("budget_s") or os.environ.get("PSX_JOB_BUDGET_S") or (900 if tier == "quick" else 5400))
         ctx = JobContext(prop, modname, job["harness"], job.get("params", {}), load_known(prop),
                          validate_every=job.get("validate_every", 25))
         ctx.I = I
@@ -523,6 +524,8 @@ def run_job(spec):
         for d in ctx.scratch:
             shutil.rmtree(d, True)
         res = ctx.result()
+        if I.budget_exhausted:
+            res["path_reasons"]["inconclusive: the job's wall-clock budget was exhausted before every path was explored"] = 1
         res["stopped_early"] = stopped
         res["wall_s"] = round(time.time() - t0, 2)
         return res
